@@ -197,6 +197,48 @@ fn encode_nu(cmd: &Command, out: &mut Vec<String>) {
     for s in subs { encode_nu(s, out); }
 }
 
+/// the zsh generator's view of a built level, for the ZshGen model
+fn encode_zsh(cmd: &Command, parent: Option<&Command>, out: &mut Vec<String>) {
+    let h = |s: &str| if s.is_empty() { "-".to_string() } else { hex(s.as_bytes()) };
+    let ho = |s: Option<String>| s.map(|x| h(&x)).unwrap_or("~".into());
+    out.push(h(cmd.get_name())); out.push(h(cmd.get_bin_name().unwrap_or("")));
+    out.push(ho(cmd.get_about().map(|a| a.to_string())));
+    let al: Vec<&str> = cmd.get_visible_aliases().collect();
+    out.push(al.len().to_string()); for a in al { out.push(h(a)); }
+    let args: Vec<&Arg> = cmd.get_arguments().collect();
+    out.push(args.len().to_string());
+    for a in args {
+        out.push(h(a.get_id().as_str()));
+        let na = a.get_num_args().expect("built");
+        out.push([a.is_positional(), na.takes_values(), matches!(a.get_action(), ArgAction::Count | ArgAction::Append), a.is_required_set(), a.is_last_set(), na.max_values() > 1].iter().map(|b| if *b { '1' } else { '0' }).collect());
+        out.push(ho(a.get_short().map(|c| c.to_string())));
+        let v = a.get_visible_short_aliases().unwrap_or_default(); out.push(v.len().to_string()); for c in v { out.push(h(&c.to_string())); }
+        out.push(ho(a.get_long().map(|c| c.to_string())));
+        let v = a.get_visible_aliases().unwrap_or_default(); out.push(v.len().to_string()); for c in v { out.push(h(c)); }
+        let v = a.get_short_and_visible_aliases().unwrap_or_default(); out.push(v.len().to_string()); for c in v { out.push(h(&c.to_string())); }
+        let v = a.get_long_and_visible_aliases().unwrap_or_default(); out.push(v.len().to_string()); for c in v { out.push(h(c)); }
+        out.push(ho(a.get_help().map(|x| x.to_string())));
+        out.push(ho(a.get_value_names().map(|v| v[0].to_string())));
+        out.push(na.min_values().to_string());
+        // `arg_conflicts`: for a global arg of a subcommand the conflicts are looked up in the parent
+        let conf = match (parent, a.is_global_set()) { (Some(x), true) => x.get_arg_conflicts_with(a), _ => cmd.get_arg_conflicts_with(a) };
+        let mut cs: Vec<String> = vec![];
+        for c in conf { if let Some(s) = c.get_short() { cs.push(format!("-{s}")); } if let Some(l) = c.get_long() { cs.push(format!("--{l}")); } }
+        out.push(cs.len().to_string()); for c in cs { out.push(h(&c)); }
+        match if na.takes_values() { a.get_value_parser().possible_values().map(|it| it.collect::<Vec<_>>()) } else { None } {
+            Some(pvs) => { out.push(pvs.len().to_string()); for pv in pvs { out.push(h(pv.get_name())); out.push(ho(pv.get_help().map(|x| x.to_string()))); out.push(b01(pv.is_hide_set()).into()); } }
+            None => out.push("~".into()),
+        }
+        out.push(match a.get_value_hint() { ValueHint::Unknown => "0", ValueHint::Other => "1", ValueHint::AnyPath | ValueHint::FilePath => "2", ValueHint::DirPath => "3", ValueHint::ExecutablePath => "4",
+            ValueHint::CommandName => "5", ValueHint::CommandString => "6", ValueHint::CommandWithArguments => "7", ValueHint::Username => "8", ValueHint::Hostname => "9",
+            ValueHint::Url => "10", ValueHint::EmailAddress => "11", _ => "12" }.into());
+        out.push(ho(a.get_value_terminator().map(|t| t.to_string())));
+    }
+    let subs: Vec<&Command> = cmd.get_subcommands().collect();
+    out.push(subs.len().to_string());
+    for s in subs { encode_zsh(s, Some(cmd), out); }
+}
+
 fn gen_script(shell: &str, n: &GN) -> String {
     let mut cmd = build(n);
     let mut buf = vec![];
@@ -266,6 +308,14 @@ pub fn run(o: &Opts) -> Report {
                 Ok((a, b)) => { if a != b { rep.oracle_fail("generator-nondeterministic", &format!("{key0} shell={shell}"), "two runs differ"); } scripts.insert(shell, a); }
             }
             rep.count(&format!("scripts_{shell}"));
+        }
+        // zsh: the whole script, byte for byte, against the ZshGen model
+        if let Some(script) = scripts.get("zsh") {
+            let mut b = build(&tree); b.set_bin_name(tree.name.clone()); b.build();
+            let mut t = vec!["zshgen".to_string()];
+            encode_zsh(&b, None, &mut t);
+            reqs.push(t.join(" ")); impls.push(hex(script.as_bytes())); keys.push(format!("{key0} [zsh script]"));
+            rep.count("zshgen");
         }
         // nushell: the whole script, byte for byte, against the NuGen model
         if let Some(script) = scripts.get("nu") {
@@ -419,7 +469,7 @@ pub fn run(o: &Opts) -> Report {
         for (((req, m), i), k) in reqs.iter().zip(model.iter()).zip(impls.iter()).zip(keys.iter()) {
             let mm = if m == "NOTHING" { "WORDS".to_string() } else { m.trim_end().to_string() };
             if req.starts_with("bashcases") && i == "PANIC" { if !m.ends_with("PANIC") { rep.disagree("bashcases", k, m, "generator panicked"); } continue; }
-            if req.starts_with("casegen") || req.starts_with("fishgen") || req.starts_with("nugen") {
+            if req.starts_with("casegen") || req.starts_with("fishgen") || req.starts_with("nugen") || req.starts_with("zshgen") {
                 if m != i { let dec = |x: &str| String::from_utf8_lossy(&unhex(x)).to_string(); let (a, b2) = (dec(m), dec(i));
                     let d = a.lines().zip(b2.lines()).find(|(x, y)| x != y).map(|(x, y)| format!("model: {x}\nreal:  {y}")).unwrap_or_else(|| format!("{} vs {} lines", a.lines().count(), b2.lines().count()));
                     rep.disagree("casegen", k, &d, ""); }
